@@ -14,6 +14,9 @@ import re
 import sys
 import time
 import traceback
+import warnings
+
+warnings.filterwarnings('ignore', category=SyntaxWarning)   # docstrings of the analysed sources
 
 VERIF = os.path.dirname(os.path.dirname(os.path.abspath(__file__)))
 REPO = os.environ.get('AMVERIF_REPO', '/repo')
